@@ -616,7 +616,10 @@ func (it *Iterator) parseItem() bool {
 		}
 	}
 
-	isInternalKey := bytes.HasPrefix(key, badgerPrefix)
+	// The internal-key prefix and banned namespaces are properties of the user key; key also
+	// carries the 8 byte version.
+	userKey := y.ParseKey(key)
+	isInternalKey := bytes.HasPrefix(userKey, badgerPrefix)
 	// Skip badger keys.
 	if !it.opt.InternalAccess && isInternalKey {
 		mi.Next()
@@ -632,7 +635,7 @@ func (it *Iterator) parseItem() bool {
 	}
 
 	// Skip banned keys only if it does not have badger internal prefix.
-	if !isInternalKey && it.txn.db.isBanned(key) != nil {
+	if !isInternalKey && it.txn.db.isBanned(userKey) != nil {
 		mi.Next()
 		return false
 	}
